@@ -34,7 +34,8 @@ with cf.ThreadPoolExecutor(max_workers=15) as ex:
     futs = [ex.submit(k2.harness_for, c) for c in cfgs.values()]
     futs += [ex.submit(k3.harness_for, *c) for c in k3.CONFIGS_QUICK]
     futs += [ex.submit(k5.harness_for, *c) for c in k5.CONFIGS_QUICK]
-    futs.append(ex.submit(k6.harness))
+    for t in k6.TYPES:
+        futs.append(ex.submit(k6.harness, t))
     futs.append(ex.submit(C.build_harness, "k4-tsan", "k4_tsan.cc", ["-O1", "-g", "-fsanitize=thread", "-U" + C.GUARD], "clang++-14"))
     futs.append(ex.submit(C.build_harness, "k1_arith", "k1_arith.cc", ["-O1"], "g++", ["translate/arith_shim.cc"]))
     bad = [f.result()[2][-400:] for f in futs if not f.result()[0]]
